@@ -30,6 +30,12 @@ def _on_alarm(signum, frame):
     raise PathTimeout()
 
 
+try:
+    from harness.common import restore_state as _restore_state
+except Exception:          # the engine can be used without the prtpy harness
+    _restore_state = None
+
+
 def _explore_task(job, jidx, pre, shared, stats, sample_every, known_builder, deadline):
     h = build(job)
     c = Ctx(); Ctx.cur = c
@@ -57,6 +63,8 @@ def _explore_task(job, jidx, pre, shared, stats, sample_every, known_builder, de
             break
         c.start_path()
         status = 'ok'
+        if _restore_state is not None:
+            _restore_state()          # every path starts from the library's import-time state (module-level containers, default arguments)
         signal.signal(signal.SIGALRM, _on_alarm)
         signal.setitimer(signal.ITIMER_REAL, PATH_TIMEOUT_S)
         try:
